@@ -3,6 +3,9 @@ package main
 import (
 	"fmt"
 	"go/types"
+	"sort"
+
+	"golang.org/x/tools/go/ssa"
 )
 
 type hidRec struct {
@@ -78,8 +81,34 @@ func (u *Unit) heapSet(st *State, fam string, t Term) {
 }
 
 func (u *Unit) havocAll(st *State, why string) {
+	// address-taken locals that never leave the function (only loaded/stored here, and only read by closures)
+	// cannot be changed by any callee: keep their contents across the havoc
+	type kept struct {
+		ptr  Value
+		elem types.Type
+		val  Value
+	}
+	var keep []kept
+	view := st.View()
+	for v, pv := range st.Env {
+		al, ok := v.(*ssa.Alloc)
+		if !ok || !u.w.privateAlloc(al) {
+			continue
+		}
+		elem := derefType(al.Type())
+		if comps(elem) == nil && !(isStructType(elem) && countFlatFields(elem, 0) <= 40) {
+			continue
+		}
+		keep = append(keep, kept{pv, elem, u.loadAt(view, pv, elem)})
+	}
+	sort.Slice(keep, func(i, j int) bool { return describeValue(keep[i].ptr) < describeValue(keep[j].ptr) })
 	st.Heap = map[string]Term{}
 	st.Hid = u.newHid(hidRec{kind: 1})
+	defer func() {
+		for _, k := range keep {
+			u.storeAt(st, k.ptr, k.elem, k.val)
+		}
+	}()
 	u.havocAlls = append(u.havocAlls, why)
 	u.havocGuards = append(u.havocGuards, st.G)
 	u.bumpAlloc(st)
